@@ -22,7 +22,7 @@ class Joins(Component):
     rule = ">=1 both-empty and >=1 one-empty pair"
 
     def examples(self, tier):
-        return 150 if tier == "quick" else 1500
+        return 300 if tier == "quick" else 1500
 
     def strategy(self, tier):
         return gen.set_join_case(tier, p_empty=5)
@@ -72,7 +72,7 @@ class Filters(Component):
     rule = ">=1 both-empty and >=1 one-empty pair"
 
     def examples(self, tier):
-        return 150 if tier == "quick" else 1500
+        return 300 if tier == "quick" else 1500
 
     def strategy(self, tier):
         return c04.set_filter_case(tier, p_empty=5)
